@@ -736,10 +736,10 @@ Proof.
   apply Hmax; assumption.
 Qed.
 
-(** ** Refutations.
+(** ** Refutations, all about LEGACY variants of the source (kept so that a regression is recognised by name).
     [pv_legacy]: the source before 32660cf6 (kernel reads data[node], never clears votes_neigh, votes of length n;
-    ones of length n). [pv_32660cf6]: kernel repaired; the clustering test is still len(set(labels)) == n and
-    'increasing' / 'decreasing' still index the argsort by position. *)
+    ones of length n). [pv_32660cf6]: kernel repaired, but before 4b87643c / c0b9c86b: the clustering test is
+    len(set(labels)) == n and 'increasing' / 'decreasing' index the argsort by position. *)
 Definition pv_legacy : pvariant :=
   {| pv_kernel := legacy_kernel; pv_ctest := CT_distinct; pv_ones := Ones_n; pv_order := OI_position |}.
 Definition pv_32660cf6 : pvariant :=
@@ -765,9 +765,9 @@ Proof.
   destruct vote_weighted_refuted_legacy as [_ [_ [_ [_ [Hn Hl]]]]]. split; assumption.
 Qed.
 
-(** D21: [[0,4,0],[4,0,0],[0,0,0]], seeds {0:0, 1:1}: three distinct values in a vector of length 3 are taken
+(** D21 (legacy, before 4b87643c): [[0,4,0],[4,0,0],[0,0,0]], seeds {0:0, 1:1}: three distinct values in a vector of length 3 are taken
     for clustering mode and seed 0 loses its label *)
-Theorem propagation_seeds_fixed_refuted :
+Theorem propagation_seeds_fixed_refuted_legacy :
   let c := {| c_indptr := [0; 1; 2; 2]; c_indices := [1; 0]; c_data := [4; 4]%Q |} in
   let seeds := [0; 1; -1]%Z in
   exists res, propagation pv_32660cf6 c seeds ONone [] true None 10 = POk res /\
@@ -778,11 +778,11 @@ Proof.
   split; [reflexivity|]. split; [reflexivity|]. split; [discriminate|reflexivity].
 Qed.
 
-(** node_order='increasing' / 'decreasing': [index_remain = index[index_remain]] selects the entries of the
+(** legacy (before c0b9c86b) node_order='increasing' / 'decreasing': [index_remain = index[index_remain]] selects the entries of the
     argsort at the POSITIONS of the free nodes, not the free nodes in sorted order. Graph 0-1, 0-2, 1-2, 1-3,
     seeds {1:0, 3:1}, in-weights [2,3,2,1], argsort [3,0,2,1]: nodes 3 and 2 are updated, seed 3 loses its
     label and node 0 is never updated. *)
-Theorem propagation_order_refuted :
+Theorem propagation_order_refuted_legacy :
   let c := {| c_indptr := [0; 2; 5; 7; 8]; c_indices := [1; 2; 0; 2; 3; 0; 1; 1];
               c_data := [1; 1; 1; 1; 1; 1; 1; 1]%Q |} in
   let seeds := [-1; 0; -1; 1]%Z in
@@ -1474,4 +1474,64 @@ Proof.
   - destruct (Hw eq_refl) as [H1 [H2 H3]].
     apply (propagation_fixed_point_weighted_model pv c seeds order oracle n_iter fuel res H1 H2 H3 H Hf Ht Hnd i Hin Hnb).
   - apply (propagation_fixed_point_unweighted_model pv c seeds order oracle n_iter fuel res H Hf Ht Hnd i Hin Hnb).
+Qed.
+
+(** * The repaired source: sign-aware clustering test, orders that keep exactly the free nodes *)
+
+(** contract of the NumPy answers: a shuffle of the free nodes / an argsort of all the nodes *)
+Definition oracle_contract (order : node_order) (oracle : list nat) (seeds : list Z) : Prop :=
+  match order with
+  | ONone => True
+  | ORandom => Permutation (filter (fun i => (nthz seeds i <? 0)%Z) (seq 0 (length seeds))) oracle
+  | _ => Permutation oracle (seq 0 (length seeds))
+  end.
+
+Lemma order_ok_of_contract order oracle seeds :
+  oracle_contract order oracle seeds -> order_ok OI_filter order oracle seeds.
+Proof. destruct order; simpl; auto. Qed.
+
+Theorem propagation_seeds_fixed_repaired pv c seeds order oracle weighted n_iter fuel res :
+  pv_ctest pv <> CT_distinct -> pv_order pv = OI_filter ->
+  (exists i, i < length seeds /\ (nthz seeds i < 0)%Z) ->
+  oracle_contract order oracle seeds ->
+  propagation pv c seeds order oracle weighted n_iter fuel = POk res ->
+  forall i, i < length seeds -> (0 <= nthz seeds i)%Z -> nthz (pr_labels res) i = nthz seeds i.
+Proof.
+  intros Hct Hoi Hun Hor H.
+  apply (propagation_seeds_fixed_model pv c seeds order oracle weighted n_iter fuel res H).
+  - apply clustering_mode_unlabelled; assumption.
+  - rewrite Hoi. apply order_ok_of_contract. exact Hor.
+Qed.
+
+Theorem propagation_fixed_point_argmax_repaired pv c seeds order oracle weighted n_iter fuel res :
+  wpos (pv_kernel pv) = true -> clr (pv_kernel pv) = true ->
+  pv_ctest pv <> CT_distinct -> pv_order pv = OI_filter ->
+  (weighted = true -> Forall (fun w => 0 <= w)%Q (c_data c)) ->
+  oracle_contract order oracle seeds ->
+  propagation pv c seeds order oracle weighted n_iter fuel = POk res ->
+  pr_fixed res = true -> 0 < pr_sweeps res ->
+  forall i, i < length seeds -> (nthz seeds i < 0)%Z ->
+    has_labelled_neighbour (prop_nbrs c weighted i) (pr_labels res) ->
+    local_max (prop_nbrs c weighted i) (pr_labels res) i.
+Proof.
+  intros Hw Hc Hct Hoi Hnn Hor H Hf Ht i Hi Hs.
+  apply (propagation_fixed_point_argmax_model pv c seeds order oracle weighted n_iter fuel res); auto.
+  - apply clustering_mode_unlabelled; [exact Hct|]. exists i. split; assumption.
+  - rewrite Hoi. apply order_ok_of_contract. exact Hor.
+Qed.
+
+(** the repaired source on the two legacy witnesses: the seeds keep their labels *)
+Definition pv_repaired : pvariant :=
+  {| pv_kernel := repaired_kernel; pv_ctest := CT_distinct_nonneg; pv_ones := Ones_nnz; pv_order := OI_filter |}.
+
+Lemma repaired_on_legacy_witnesses :
+  (exists res, propagation pv_repaired {| c_indptr := [0; 1; 2; 2]; c_indices := [1; 0]; c_data := [4; 4]%Q |}
+                           [0; 1; -1]%Z ONone [] true None 10 = POk res /\ pr_labels res = [0; 1; -1]%Z) /\
+  (exists res, propagation pv_repaired
+                 {| c_indptr := [0; 2; 5; 7; 8]; c_indices := [1; 2; 0; 2; 3; 0; 1; 1];
+                    c_data := [1; 1; 1; 1; 1; 1; 1; 1]%Q |}
+                 [-1; 0; -1; 1]%Z OIncreasing [3; 0; 2; 1] true (Some 5) 5 = POk res /\
+               pr_index res = [0; 2] /\ pr_labels res = [0; 0; 0; 1]%Z).
+Proof.
+  split; eexists; (split; [vm_compute; reflexivity|]); cbn [pr_labels pr_index]; auto.
 Qed.
